@@ -704,6 +704,14 @@ func quoteSym(s string) string {
 type Script struct {
 	Asserts []*Term
 	Observe []*Term // extra terms whose model value is requested
+	Steps   []BatchStep
+}
+
+// BatchStep: one obligation of an incremental script. Perm is asserted for good before the step (the assumptions
+// made since the previous obligation), Temp only for this check (path condition and negated goal).
+type BatchStep struct {
+	Perm []*Term
+	Temp []*Term
 }
 
 func collect(t *Term, seen map[*Term]bool, order *[]*Term) {
@@ -752,6 +760,10 @@ func (sc *Script) Render(logic string, extraAxioms []*Term, wantModel bool) stri
 	var order []*Term
 	seen := map[*Term]bool{}
 	all := append(append([]*Term{}, extraAxioms...), sc.Asserts...)
+	for _, st := range sc.Steps {
+		all = append(all, st.Perm...)
+		all = append(all, st.Temp...)
+	}
 	for _, a := range all {
 		collect(a, seen, &order)
 	}
@@ -921,6 +933,19 @@ func (sc *Script) Render(logic string, extraAxioms []*Term, wantModel bool) stri
 	}
 	for _, a := range sc.Asserts {
 		fmt.Fprintf(&sb, "(assert %s)\n", a.inline(names))
+	}
+	if len(sc.Steps) > 0 {
+		for i, st := range sc.Steps {
+			for _, a := range st.Perm {
+				fmt.Fprintf(&sb, "(assert %s)\n", a.inline(names))
+			}
+			fmt.Fprintf(&sb, "(echo \"step %d\")\n(push 1)\n", i)
+			for _, a := range st.Temp {
+				fmt.Fprintf(&sb, "(assert %s)\n", a.inline(names))
+			}
+			sb.WriteString("(check-sat)\n(pop 1)\n")
+		}
+		return sb.String()
 	}
 	sb.WriteString("(check-sat)\n")
 	if wantModel {
